@@ -5,6 +5,7 @@ import (
 	"go/constant"
 	"go/types"
 	"os"
+	"sort"
 	"strings"
 
 	"golang.org/x/tools/go/ssa"
@@ -840,8 +841,19 @@ func (vc *FnVC) evalCall(env *Env, c ECall) (*Val, error) {
 		if env.loop == nil || len(args) != 1 {
 			return nil, fmt.Errorf("visited(k) is only meaningful in the invariant of a range-over-map loop")
 		}
-		for b := range env.loop.blocks {
-			for _, in := range b.Instrs {
+		// the innermost enclosing loop (this one included) that ranges over a map with this key sort
+		var encl []*loopInfo
+		for _, l := range vc.loops {
+			if l.blocks[env.loop.header] {
+				encl = append(encl, l)
+			}
+		}
+		sort.Slice(encl, func(i, j int) bool { return len(encl[i].blocks) < len(encl[j].blocks) })
+		for _, l := range encl {
+			if nx, ok := l.header.Instrs[0].(*ssa.Next); ok && !nx.IsString {
+				_ = nx
+			}
+			for _, in := range l.header.Instrs {
 				if nx, ok := in.(*ssa.Next); ok && !nx.IsString {
 					key := "IT!" + nx.Iter.Name()
 					if vc.keys[key] != nil {
@@ -850,7 +862,7 @@ func (vc *FnVC) evalCall(env *Env, c ECall) (*Val, error) {
 				}
 			}
 		}
-		return nil, fmt.Errorf("visited(): no map iterator in this loop")
+		return nil, fmt.Errorf("visited(): no map iterator in this loop or an enclosing one")
 	case "arg": // arg(i): in an `at call` clause, the i-th argument of the matched call
 		if len(c.Args) != 1 {
 			return nil, fmt.Errorf("arg(i)")
